@@ -713,3 +713,37 @@ add("m17n", ["C17"], (S, """        if scan_schedulers:
             yield from job._iterate_jobs("""), rules=["R17.6"])
 add("b17a", ["C17"], (P, """                if next not in neighbours:
                     neighbours.add(next)""", """                neighbours.add(next)"""), expect='silent')
+
+# ------------------------------------------------------------------ C18
+add("m18a", ["C18"], (P, "        preserved = downwards & upwards", "        preserved = downwards | upwards"), rules=["R18.3"])
+add("m18b", ["C18"], (P, """        if keep_starts:
+            preserved.update(starts)""", """        if keep_starts:
+            preserved.update(ends)"""), rules=["R18.3"])
+add("m18c", ["C18"], (P, """        self.jobs &= set(remains)
+        self.sanitize()""", """        self.jobs &= set(remains)"""), rules=["R18.1"])
+add("m18d", ["C18"], (P, """        # remove job from the downstreams requirements
+        for down in downstreams:
+            down.required.remove(job)
+""", ""), rules=["R18.1", "R18.2"])
+add("m18e", ["C18"], (P, "                down.requires(up)", "                up.requires(down)"), rules=["R18.2"])
+add("m18f", ["C18"], (P, "        downwards = self.successors_downstream(*starts) if starts else self.jobs",
+                      "        downwards = self.successors_downstream(*ends) if starts else self.jobs"), rules=["R18.3"])
+add("m18g", ["C18"], (P, "        upwards = self.predecessors_upstream(*ends) if ends else self.jobs",
+                      "        upwards = self.predecessors_upstream(*ends) if ends else set()"), rules=["R18.3"])
+add("m18h", ["C18"], (P, """        if job not in self.jobs:
+            raise ValueError(f"job {job} is not in {self}")
+""", ""), rules=["R18.2"])
+add("m18i", ["C18"], (P, "        downstreams = {down for down in self.jobs if job in down.required}",
+                      "        downstreams = {down for down in self.jobs if job in down.required and not down.forever}"),
+    rules=["R18.2"])
+add("m18j", ["C18"], (P, """        # remove the job altogether
+        self.jobs.remove(job)
+""", ""), rules=["R18.2"])
+add("m18k", ["C18"], (P, "        self.jobs &= set(remains)\n", "        self.jobs -= set(remains)\n"), rules=["R18.3"])
+add("m18l", ["C18"], (P, """        self.jobs = preserved
+        self.sanitize()""", """        self.jobs = preserved"""), rules=["R18.1"])
+add("m18m", ["C18"], (P, """            for down in downstreams:
+                down.requires(up)""", """            for down in downstreams:
+                down.requires(up)
+                break"""), rules=["R18.2"])
+add("b21", ["C18"], (P, "        preserved = downwards & upwards", "        preserved = upwards & downwards"), expect='silent')
